@@ -52,26 +52,31 @@ pub struct Net {
     pub fail_persistent: bool,
     pub fail_kind: io::ErrorKind,
     pub write_cap: usize,
+    /// how many operations actually reported the injected fault
+    pub faults: usize,
 }
 #[derive(Clone)]
 pub struct Shared(pub Rc<RefCell<Net>>);
 impl Shared {
     pub fn new(input: Vec<u8>, chunks: Vec<usize>) -> Shared {
-        Shared(Rc::new(RefCell::new(Net { input, rpos: 0, chunks, ci: 0, out: vec![], flushed: 0, waited_unflushed: vec![], reads: 0, ops: 0, fail_at: None, fail_persistent: false, fail_kind: io::ErrorKind::BrokenPipe, write_cap: usize::MAX })))
+        Shared(Rc::new(RefCell::new(Net { input, rpos: 0, chunks, ci: 0, out: vec![], flushed: 0, waited_unflushed: vec![], reads: 0, ops: 0, fail_at: None, fail_persistent: false, fail_kind: io::ErrorKind::BrokenPipe, write_cap: usize::MAX, faults: 0 })))
     }
-    fn op(&self) -> io::Result<()> {
+    fn op(&self, is_write: bool) -> io::Result<()> {
         let mut n = self.0.borrow_mut();
         let k = n.ops;
         n.ops += 1;
+        // std's write_all retries a write that reports Interrupted (by convention not an error): such a fault is
+        // injected into reads and flushes only
+        if is_write && n.fail_kind == io::ErrorKind::Interrupted { return Ok(()); }
         match n.fail_at {
-            Some(f) if k == f || (n.fail_persistent && k > f) => Err(io::Error::new(n.fail_kind, "injected transport fault")),
+            Some(f) if k == f || (n.fail_persistent && k > f) => { n.faults += 1; Err(io::Error::new(n.fail_kind, "injected transport fault")) }
             _ => Ok(()),
         }
     }
 }
 impl Read for Shared {
     fn read(&mut self, buf: &mut [u8]) -> io::Result<usize> {
-        self.op()?;
+        self.op(false)?;
         let mut n = self.0.borrow_mut();
         let unfl = n.out.len() - n.flushed;
         if unfl > 0 {
@@ -90,14 +95,14 @@ impl Read for Shared {
 }
 impl Write for Shared {
     fn write(&mut self, buf: &[u8]) -> io::Result<usize> {
-        self.op()?;
+        self.op(true)?;
         let mut n = self.0.borrow_mut();
         let k = buf.len().min(n.write_cap);
         n.out.extend_from_slice(&buf[..k]);
         Ok(k)
     }
     fn flush(&mut self) -> io::Result<()> {
-        self.op()?;
+        self.op(false)?;
         let mut n = self.0.borrow_mut();
         n.flushed = n.out.len();
         Ok(())
@@ -1080,6 +1085,11 @@ fn w_c10_registry() {
         assert!(r.result.is_err() && !r.panicked, "[C10.w.unknown] execution / long data for an id that is not live was accepted");
         assert!(!r.log.iter().any(|e| matches!(e, Ev::Execute(..))), "[C10.w.unknown] execution for a dead id reached the shim");
     }
+    // a PREPARE whose reply the library refuses (more columns than the protocol can announce) leaves no usable id
+    {
+        let r = converse(hs41(b"u", 0), &[(c_prepare(b"p:7:0:65536"), 0), (ex(7, b"x"), 0), (vec![0x0e], 0), quit()], vec![], false, None, None);
+        assert!(!r.panicked && !r.log.iter().any(|e| matches!(e, Ev::Execute(..))), "[C10.w.unknown] execution of an id whose PREPARE reply was refused reached the shim");
+    }
     // re-preparing a live id starts afresh: no stale long data, no stale types
     let r = converse(hs41(b"u", 0), &[(c_prepare(b"p:1:1:0"), 0), (c_long(1, 0, b"STALE"), 0), (c_prepare(b"p:1:1:0"), 0), (ex(1, b"fresh"), 0), quit()], vec![], false, None, None);
     assert!(r.result.is_ok(), "[C10.w.reprepare] failed: {:?}", r.result);
@@ -1089,7 +1099,7 @@ fn w_c10_registry() {
     // every CLOSE reaches on_close once, no reply
     let r = converse(hs41(b"u", 0), &[(c_prepare(b"p:1:0:0"), 0), (c_close(1), 0), (c_close(1), 0), (c_close(9), 0), quit()], vec![], false, None, None);
     assert!(r.log.iter().filter(|e| matches!(e, Ev::Close(_))).count() == 3, "[C10.w.close] not every COM_STMT_CLOSE reached on_close exactly once: {:?}", r.log);
-    println!("VERIF-NATIVE w_c10_registry cases=7 nontrivial=7");
+    println!("VERIF-NATIVE w_c10_registry cases=8 nontrivial=8");
 }
 
 #[test]
@@ -1415,13 +1425,14 @@ fn w_c19_faults() {
     let nops = clean.net.0.borrow().ops;
     for k in 0..nops {
         for pers in [false, true] {
-            for kind in [io::ErrorKind::BrokenPipe, io::ErrorKind::UnexpectedEof, io::ErrorKind::ConnectionReset, io::ErrorKind::InvalidData, io::ErrorKind::TimedOut] {
+            for kind in [io::ErrorKind::BrokenPipe, io::ErrorKind::UnexpectedEof, io::ErrorKind::ConnectionReset, io::ErrorKind::InvalidData, io::ErrorKind::TimedOut, io::ErrorKind::Interrupted, io::ErrorKind::WouldBlock] {
                 let r = converse_k(hs.clone(), &cmds, vec![], false, Some((k, pers)), None, kind);
                 // no shim callback is started after the failure: what the shim saw is a prefix of what it sees in the
                 // fault-free conversation (a callback that cleans up after the connection has failed shows up as an extra event)
                 assert!(r.log.len() <= clean.log.len() && r.log[..] == clean.log[..r.log.len()], "[C19.w.nocallback] after a transport error ({:?}) at operation {} the shim was called back: {:?}", kind, k, r.log.last());
                 // the two documented Drop panics (known findings D10) are not re-reported here
                 if r.panicked { continue; }
+                if r.net.0.borrow().faults == 0 { continue; }   // (an Interrupted aimed at a write is not injected)
                 assert!(r.result.is_err(), "[C19.w.fault] transport error ({:?}) at operation {} was masked (run_on returned Ok)", kind, k);
                 cases += 1;
             }
